@@ -262,6 +262,25 @@ impl Expr {
     }
 }
 
+impl Expr {
+    /// A text argument of a function is shown quoted, so that `concat('a, b')` and
+    /// `concat('a', 'b')` do not have the same text (numbers and `*` stay as they are).
+    fn argument_text(arg: &Expr) -> String {
+        match arg.val {
+            Some(ref val)
+                if arg.function.is_none()
+                    && arg.field.is_none()
+                    && arg.left.is_none()
+                    && val != "*"
+                    && val.parse::<f64>().is_err() =>
+            {
+                format!("{}{:?}", if arg.minus { "-" } else { "" }, val)
+            }
+            _ => arg.to_string(),
+        }
+    }
+}
+
 impl Display for Expr {
     /// The text of an expression identifies it (it is the key of the per-row value cache and of the
     /// aggregate buffers, and the column name in JSON output), so it has to show the whole tree:
@@ -277,12 +296,12 @@ impl Display for Expr {
             fmt.write_str(&function.to_string())?;
             fmt.write_char('(')?;
             if let Some(ref left) = self.left {
-                fmt.write_str(&left.to_string())?;
+                fmt.write_str(&Self::argument_text(left))?;
             }
             if let Some(ref args) = self.args {
                 for arg in args {
                     fmt.write_str(", ")?;
-                    fmt.write_str(&arg.to_string())?;
+                    fmt.write_str(&Self::argument_text(arg))?;
                 }
             }
             fmt.write_char(')')?;
